@@ -1604,6 +1604,7 @@ fn gen_install(rng: &mut Rng, info: &FontInfo, prop: &str) -> Option<(FontInfo, 
     let want_morx = !want_vargpos && !want_rchain && rng.pct(p_morx);
     let want_kern = !want_vargpos && !want_rchain && !want_morx && rng.pct(p_kern);
     let mut want_frac = false;
+    let mut marklig_char: Option<u32> = None;
     if prop == "C02" || prop == "C03" {
         if rng.pct(if prop == "C02" { 4 } else { 2 }) && !want_vargpos && !want_rchain {
             let gid = |c: char| -> Option<u16> {
@@ -1615,11 +1616,29 @@ fn gen_install(rng: &mut Rng, info: &FontInfo, prop: &str) -> Option<(FontInfo, 
             };
             let wanted: Vec<char> = "fi/0123456789".chars().collect();
             let glyphs: Vec<u16> = wanted.iter().filter_map(|c| gid(*c)).collect();
+            // a mark for the ligature variant: a combining mark of the font, or any other glyph
+            // (the installed GDEF is what makes it a mark)
+            let mark_char = ['\u{0301}', '\u{0300}', '\u{0303}', '~', '^', '`']
+                .into_iter()
+                .find(|c| gid(*c).map_or(false, |g| !glyphs.contains(&g)));
             if glyphs.len() == wanted.len() {
-                surgeries.push(Surgery::InstallFracLiga {
-                    glyphs,
-                    variant: rng.below(1 << 16),
-                });
+                match mark_char {
+                    Some(mc) if rng.pct(50) => {
+                        surgeries.push(Surgery::InstallMarkLig {
+                            glyphs,
+                            mark: gid(mc).unwrap_or(0),
+                            components: 1 + rng.below(3) as u8,
+                            variant: rng.below(1 << 16),
+                        });
+                        marklig_char = Some(mc as u32);
+                    }
+                    _ => {
+                        surgeries.push(Surgery::InstallFracLiga {
+                            glyphs,
+                            variant: rng.below(1 << 16),
+                        });
+                    }
+                }
                 want_frac = true;
             }
         }
@@ -1829,7 +1848,14 @@ fn gen_install(rng: &mut Rng, info: &FontInfo, prop: &str) -> Option<(FontInfo, 
             .map(|t| (crate::trace::tag_from_str(t), vec![0u16]))
             .collect();
         modified.scripts = vec!["latn".to_string(), "DFLT".to_string()];
-        modified.frac_bias = true;
+        modified.frac_bias = marklig_char.is_none();
+        if let Some(mc) = marklig_char {
+            // texts of f, i and the mark: ligatures of two and three components followed by marks
+            modified.gpos_features = vec![(crate::trace::tag_from_str("mark"), vec![0u16])];
+            let mut cs = vec!['f' as u32, 'i' as u32, mc];
+            cs.sort_unstable();
+            modified.chars = cs;
+        }
     }
     if let Some(f) = focus {
         modified.chars = f;
